@@ -3,7 +3,7 @@
 Theorems: coq/theories/C18/Properties_C18.v
   * T18_monitor_sound_complete: the extracted ledger monitor answers Ok exactly on disciplined traces
   * T18_xmemory*, T18_arena*, T18_initterm*: header mechanism, DOM arena, lifecycle state machine (models)
-Tie: translator/c18_init.py regenerates Gen/GenDomHeap.v and Gen/GenInit.v from /repo on every run.
+Tie: translator/c18_init.py regenerates Gen/GenC18DomHeap.v and Gen/GenC18Init.v from /repo on every run.
 Correspondence = monitored exploration: bin/xh_C18 runs the real library with instrumented MemoryManagers and
 prints every allocate/deallocate; the stream is piped through bin/xm_C18 where the *extracted* monitor judges the
 events of every case; the model predictions (header size/offset, arena block requests and offsets, lifecycle
@@ -53,14 +53,31 @@ def gen_sweep(ctx, ndocs):
             kv["val"] = 0
         kv.update(api=api, scn=scn, pool=rng.choice([0, 0, 1]), exc=rng.randrange(4),
                   mode=rng.choice(["fresh", "fresh", "reuse"]), filter=rng.randrange(4) if api == "ls" else 0)
+        # known finding C18-DG-GRAMMAR-DOUBLE-OWNED: DGXMLScanner + caching grammar pool + external DTD subset + reuse of
+        # the parser after a parse that ended before the DOCTYPE.  Exactly that class is kept out of the sweep (no pool).
+        dg_ext = scn == "DG" and b"<!DOCTYPE" in d["doc"] and b"SYSTEM" in d["doc"]
+        if dg_ext:
+            kv["pool"] = 0
         cid = "c%d-%s" % (i, d["kind"])
         out.append((cid, d["kind"] + "/" + api, case_line(cid, d, kv)))
         # object lifetimes of DOM documents and grammar pools on a part of the pool
         if i % 3 == 0:
             life = "".join(rng.choice("PPAARXDNTC") for _ in range(rng.randrange(2, 9)))
-            kv2 = dict(d["cfg"]); kv2.update(scn=scn if scn != "WF" else "IG", pool=rng.choice([0, 1]), life="P" + life)
+            kv2 = dict(d["cfg"]); kv2.update(scn=scn if scn != "WF" else "IG", pool=0 if dg_ext else rng.choice([0, 1]), life="P" + life)
             cid2 = "l%d-%s" % (i, d["kind"])
             out.append((cid2, "domlife", case_line(cid2, d, kv2).replace("case ", "domlife ", 1)))
+        if i % 3 == 1:
+            # other objects taking a manager: serializer, XPath, regex, URIs, transcoding, XSValue, Base64, XSModel, DOM editing.
+            # XPath expressions of the sweep all start with '/' (the other class is known finding C18-XPATH-EXPR-MANAGER,
+            # replayed by its own witness)
+            xp = [b"//a", b"/r/a", b"//a[@x='1']", b"/r/@*", b"//*", b"/", b"/r/a/@kind", b"//a | //b", b"/root/item/name", b"//x:e"]
+            other = [b"a+b*", b"[a-z", b"(a|b)*abb", b"\\p{L}+\\d{2,3}", b"2001-01-01T10:00:00", b"12.50", b"-INF", b"../x/y?z#f",
+                     b"http://[bad", b"aGVsbG8=", b"not base64!", b"P1Y2M", b"x:y", b"", b"caf\xc3\xa9", b"a{2,1}", b"(", b"%zz"]
+            ops = "".join(rng.choice("SXRUTVBNG") for _ in range(rng.randrange(3, 10)))
+            strs = [(rng.choice(xp) if c == "X" else rng.choice(other)) or b"." for c in ops]
+            kv4 = dict(d["cfg"]); kv4.update(scn="IG", ops=ops, strs=",".join(x.hex() for x in strs))
+            cid4 = "m%d-%s" % (i, d["kind"])
+            out.append((cid4, "misc", case_line(cid4, d, kv4).replace("case ", "misc ", 1)))
         if i % 4 == 1 and d["ext"]:
             life = "".join(rng.choice("LPPTDNKUZ") for _ in range(rng.randrange(2, 9)))
             kv3 = dict(d["cfg"]); kv3.update(api=rng.choice(["sax2", "sax", "dom"]), scn="IG", life="L" + life)
@@ -218,7 +235,8 @@ def lifecycle(ctx, xh, xm, dflt, nseq):
         jobs.append((si, ops, lines))
     with ThreadPoolExecutor(max_workers=min(8, V.NPROC)) as ex:
         results = list(ex.map(lambda j: run_pipeline(xh, xm, j[2], "life%d" % j[0]), jobs))
-    mp = subprocess.run([xm], input=("\n".join("mlife L%d dom0=%d,%d,%d ops=%s" % (si, dflt[0], dflt[1], dflt[2], ";".join(ops))
+    rd = 1 if ctx.coverage.get("terminate_resets_dom_heap") else 0
+    mp = subprocess.run([xm], input=("\n".join("mlife L%d rd=%d dom0=%d,%d,%d ops=%s" % (si, rd, dflt[0], dflt[1], dflt[2], ";".join(ops))
                                                 for si, ops, _ in jobs) + "\n").encode(), stdout=subprocess.PIPE, timeout=600)
     mlines = {ln.split()[1]: ln.split()[2:] for ln in mp.stdout.decode().splitlines() if ln.startswith("ml ")}
     for (si, ops, lines), (rc1, rc2, o, err) in zip(jobs, results):
@@ -359,6 +377,53 @@ def witnesses(ctx, xh, xm, dflt):
         else:
             ctx.violation("C18-STALE-READERS", {"what": txt, "results": different, "request": lines})
     report_bad(ctx, bad, lines, "discipline violated in the progressive-reuse witness")
+    # C18-DG-GRAMMAR-DOUBLE-OWNED
+    dtd = b"<!ELEMENT r (a*)><!ELEMENT a (#PCDATA)>"
+    gdoc = b'<?xml version="1.0"?><!DOCTYPE r SYSTEM "ext.dtd"><r><a>t</a></r>'
+    lines = ["init w user=1", "case wDG api=sax2 exc=0 mode=reuse ns=1 pool=1 sch=0 scn=DG val=1 prog=0 kmax=1 doc=%s ext=ext.dtd:%s"
+             % (gdoc.hex(), dtd.hex()), "term w"]
+    rc1, rc2, o, err = run_pipeline(xh, xm, lines, "wDG")
+    ctx.count()
+    st = {}
+    verdicts, bad = judge(ctx, o, lines, "wDG", st)
+    vk = verdicts.get("wDG.kreuse", "")
+    if rc1 != 0 or (vk and vk.split()[2] != "ok"):
+        txt = ("DGXMLScanner with a caching grammar pool: a parse that ends before the DOCTYPE (handler exception at startDocument) "
+               "leaves its fresh DTDGrammar cached under the key [dtd]; the next parse on the same parser caches its own grammar under the "
+               "system id while it is still in the resolver's bucket, so ~GrammarResolver and ~XMLGrammarPoolImpl both delete it "
+               "(double free of blocks of the pool's manager, %s) and the first grammar is orphaned"
+               % ("harness killed by signal %d in ~XMLGrammarPoolImpl" % -rc1 if rc1 != 0 else " ".join(vk.split()[2:5])))
+        if ctx.find_known("C18-DG-GRAMMAR-DOUBLE-OWNED"):
+            ctx.known_finding("C18-DG-GRAMMAR-DOUBLE-OWNED", txt)
+        else:
+            ctx.violation("C18-DG-GRAMMAR-DOUBLE-OWNED", {"what": txt, "request": lines})
+    else:
+        report_bad(ctx, bad, lines, "discipline violated in the DG grammar-cache witness")
+    # C18-XPATH-EXPR-MANAGER: DOMXPathExpressionImpl copies an expression that does not start with '/' with the GLOBAL manager
+    # and releases it to the document's manager
+    xdoc = b'<r><a x="1">t</a><a>u</a></r>'
+    lines = ["init w user=1", "misc wXP1 ops=X strs=%s doc=%s" % (b"a".hex(), xdoc.hex()),
+             "misc wXP2 ops=X strs=%s doc=%s" % (b"//a".hex(), xdoc.hex()), "term w"]
+    rc1, rc2, o, err = run_pipeline(xh, xm, lines, "wXP")
+    ctx.count()
+    st = {}
+    verdicts, bad = judge(ctx, o, lines, "wXP", st)
+    v1 = verdicts.get("wXP1.misc", "")
+    v2 = verdicts.get("wXP2.misc", "")
+    vg = verdicts.get("w", "")
+    if rc1 != 0 or not v1 or not vg:
+        ctx.violation("harness-crash", {"what": "XPath witness could not be replayed", "stderr": err[-1000:], "request": lines}, no_input=True)
+    elif v1.split()[2] != "ok" and v2.split()[2] == "ok" and vg.split()[2] == "outstanding":
+        txt = ("DOMXPathExpressionImpl copies an XPath expression that does not start with '/' with XMLString::replicate(expression) "
+               "(global manager) but releases it to the document's manager: foreign pointer handed to the application's manager "
+               "(`%s`) and one block of the global manager never returned (`%s`); expressions starting with '/' are fine" % (
+                   " ".join(v1.split()[2:5]), " ".join(vg.split()[2:5])))
+        if ctx.find_known("C18-XPATH-EXPR-MANAGER"):
+            ctx.known_finding("C18-XPATH-EXPR-MANAGER", txt)
+        else:
+            ctx.violation("C18-XPATH-EXPR-MANAGER", {"what": txt, "verdict": v1, "request": lines})
+    else:
+        report_bad(ctx, bad, lines, "discipline violated in the XPath witness")
 
 
 def run_pipeline(xh, xm, lines, tag):
@@ -456,6 +521,8 @@ def run(ctx):
         ctx.violation("translator", {"what": "translator can no longer read DOM heap constants / initialiser lists",
                                      "error": repr(e)}, no_input=True)
         return
+    ctx.coverage["terminate_resets_dom_heap"] = bool(consts["init"]["dom_reset"])
+    ctx.coverage["arena_block_fits_request"] = bool(consts["heap"]["shape"]["block_fits_request"])
     ok, out, failed = ctx.prove(["Base", "Gen", "C18"],
                                 ["theories/C18/Properties_C18.vo", "theories/C18/Extract_C18.vo"],
                                 props_file="theories/C18/Properties_C18.v")
@@ -476,6 +543,32 @@ def run(ctx):
             if not ln.startswith(("a ", "f ")):
                 print(ln)
         report_bad(ctx, bad, lines, "replayed case violates the discipline")
+        # model comparison for arena / xmem requests of the replay
+        heap = consts["heap"]
+        cfg = (heap["kInitialHeapAllocSize"], heap["kMaxHeapAllocSize"], heap["kMaxSubAllocationSize"])
+        for ln in lines:
+            a = ln.split()
+            if a[0] == "init" and any(t.startswith("dom=") for t in a):
+                cfg = tuple(int(x) for x in [t for t in a if t.startswith("dom=")][0][4:].split(","))
+            if a[0] in ("arena", "xmem"):
+                opsarg = [t for t in a if t.startswith("ops=")][0]
+                if a[0] == "arena":
+                    mreq = "marena %s fx=0 cfg=%d,%d,%d %s\nmarena %s fx=1 cfg=%d,%d,%d %s\n" % ((a[1],) + cfg + (opsarg, a[1]) + cfg + (opsarg,))
+                else:
+                    mreq = "mxmem %s glob=1 %s\n" % (a[1], opsarg)
+                mo = subprocess.run([xm], input=mreq.encode(), stdout=subprocess.PIPE, timeout=60).stdout.decode().splitlines()
+                impl = [x.split(" ", 2)[2] for x in o if x.startswith("x %s " % a[1]) and " ctor" not in x]
+                models = [x.split(" ", 2)[2] for x in mo if x.startswith("x ")]
+                print("impl : %s" % impl)
+                print("model: %s" % models)
+                if impl and models and impl[0] != models[0]:
+                    ctx.violation("divergence", {"what": "replayed request: implementation differs from the model", "impl": impl,
+                                                 "model": models, "request": lines})
+                elif impl and "OUT" in impl[0]:
+                    ctx.violation("arena", {"what": "replayed request: region outside its block", "impl": impl, "request": lines})
+        for ln in o:
+            if ln.startswith("r ") and "DIFFERENT" in ln:
+                ctx.violation("replay", {"what": "replayed request: reused parser differs from a fresh one", "line": ln, "request": lines})
         return
 
     thorough = ctx.tier == "thorough"
@@ -500,7 +593,7 @@ def run(ctx):
     for lines, (rc1, rc2, o, err) in zip(sessions, results):
         if rc1 != 0 or rc2 != 0:
             # find the case that crashed: the last 'begin' echoed
-            last = [ln for ln in o if ln.startswith("begin ")]
+            last = [ln for ln in o if ln.startswith("req ")]
             cid = last[-1].split()[1] if last else None
             req = [lines[0]] + [ln for ln in lines if cid and ln.split(" ", 2)[1] == cid] + [lines[-1]]
             ctx.violation("harness-crash", {"what": "harness or monitor crashed (rc %s/%s)" % (rc1, rc2), "stderr": err[-1500:],
